@@ -84,10 +84,10 @@ func (s *ScriptedMonitor) PublishedCopy() []Published {
 
 // TrackCall is one recorded tracker instruction.
 type TrackCall struct {
-	Seq  int
-	Op   string // track | untrack
-	Pin  *api.Pin
-	Cid  cid.Cid
+	Seq int
+	Op  string // track | untrack
+	Pin *api.Pin
+	Cid cid.Cid
 }
 
 // RecTracker implements ipfscluster.PinTracker where the tracker is not under
@@ -139,12 +139,12 @@ func (t *RecTracker) Reset() {
 // StubInformer implements ipfscluster.Informer with a mutable name and a
 // scripted metric.
 type StubInformer struct {
-	mu     sync.Mutex
-	name   string
-	TTL    time.Duration
-	Valid  bool
-	Value  string
-	Calls  int
+	mu    sync.Mutex
+	name  string
+	TTL   time.Duration
+	Valid bool
+	Value string
+	Calls int
 }
 
 // NewStubInformer makes one.
